@@ -456,10 +456,25 @@ func c06ObserveBlockstore(work string, s c06Sess) (f0 []byte, log []c06ObsWrite,
 	sc := bufio.NewScanner(tf)
 	sc.Buffer(make([]byte, 1<<20), 64<<20)
 	op := -1
+	pending := map[string]string{} // pid -> first half of a call strace printed in two pieces
 	for sc.Scan() {
 		line := sc.Text()
-		if strings.Contains(line, "<unfinished") || strings.Contains(line, "resumed>") {
-			panic("strace split a call: " + line[:60])
+		// "<pid> call(args <unfinished ...>" ... "<pid> <... call resumed>rest": glue the halves together
+		pid := ""
+		if i := strings.IndexByte(line, ' '); i > 0 {
+			pid = line[:i]
+		}
+		if i := strings.Index(line, " <unfinished ...>"); i >= 0 {
+			pending[pid] = line[:i]
+			continue
+		}
+		if i := strings.Index(line, "resumed>"); i >= 0 && strings.Contains(line, "<... ") {
+			head, ok := pending[pid]
+			if !ok {
+				continue
+			}
+			delete(pending, pid)
+			line = head + line[i+len("resumed>"):]
 		}
 		if m := c06ReWrite.FindStringSubmatch(line); m != nil && !strings.Contains(line, "pwrite64(") {
 			if c06TracePath(m[1]) == "/dev/null" {
